@@ -17,7 +17,7 @@
 From Coq Require Import List Arith Bool ZArith Permutation.
 From TK Require Import Conn_Model Conn_Spec Conn_Proof Conn_Proof_Main Conn_Proof_Order
      Conn_Proof_Dijkstra Conn_Proof_Knn Conn_Proof_Sym Conn_Proof_Consumer Conn_Proof_Methods
-     Conn_Proof_Ties Conn_Proof_Stack.
+     Conn_Proof_Ties Conn_Proof_Stack Conn_Model_Rec Conn_Proof_StackRec.
 From TK Require Dijkstra_Model Dijkstra_Spec Dijkstra_Proof_Base Knn_Spec Knn_Brute_Model Knn_VpTree_Model
      Knn_VpTree_Proof Knn_CoverSel_Model.
 Import ListNotations.
@@ -404,6 +404,19 @@ Theorem dfs_loop_stack_potential : forall sel N adj, sel_short sel ->
 Proof. exact dfs_loop_hw_bound. Qed.
 Print Assumptions dfs_loop_stack_potential.
 
+(* regression theorem for a REJECTED variant (seeded change C01_1_r2; model Conn_Model_Rec.v): the search of
+   connected.hpp rewritten as plain recursion takes the same decisions but keeps its pending work in nested
+   activations: on the path 0 -> 1 -> .. -> N-1 it nests exactly N activations (second component), for every N;
+   the shipped search decides the same and its explicit stack stays within N + 1 heap entries.  Call-stack use
+   proportional to the number of samples = SIGSEGV under an 8 MiB stack for a few 10^5 samples *)
+Theorem recursive_search_depth_refuted : forall N, 2 <= N ->
+  wf_graph N (path1 N) /\ (forall row, In row (path1 N) -> length row = 1) /\
+  all_reachable_from_first_rec N (path1 N) = COk (true, N) /\
+  all_reachable_from_first N (path1 N) = COk true /\
+  snd (all_reachable_from_first_hw N (path1 N)) <= N + 1.
+Proof. exact main_recursive_depth. Qed.
+Print Assumptions recursive_search_depth_refuted.
+
 (* the boolean oracles the harness applies to the implementation's own output *)
 Theorem spec_oracles : forall N nb, 0 < N -> wf_b N nb = true ->
   (strong_b N nb = true <-> strongly_connected N nb) /\
@@ -483,3 +496,7 @@ Example hyps_stack_satisfiable :
   wf_graph 64 (chain_graph 64) /\ (forall row, In row (chain_graph 64) -> length row = 2) /\
   sel_short sel_all.
 Proof. exact nv_stack. Qed.
+
+Example hyps_recursive_satisfiable : 2 <= 50 /\ all_reachable_from_first_rec 50 (path1 50) = COk (true, 50) /\
+  all_reachable_from_first_hw 50 (path1 50) = (COk true, 1).
+Proof. exact nv_recursive. Qed.
